@@ -572,16 +572,16 @@ func runC13b(sc C13bSc, c *kit.Case) *kit.Violation {
 		a := st.a
 		switch a.Via {
 		case "wrapper":
-			go func() {
+			simnet.Go(func() {
 				st.err = wrapper.Put(mkItem(a))
 				close(st.done)
-			}()
+			})
 		case "srvput":
-			go func() {
+			simnet.Go(func() {
 				it := mkItem(a)
 				st.err = sv.S.Put(context.Background(), dht.NewAddr(remote), it.ToPut(), "tok", dht.QueryRateLimiting{}).Err
 				close(st.done)
-			}()
+			})
 		case "wire":
 			sv.C.Inject(from, mkQuery([]byte("wp"), "put", b44PutArgs(sender, key, nil, a.Seq, a.Cas, c13Values[a.Val], wireTok, nil)))
 		}
